@@ -148,7 +148,7 @@ pub(crate) mod vk {
             Error::InvalidData(_) => Kind::InvalidData,
             Error::InvalidInput(_) => Kind::InvalidInput,
             Error::OutOfMemory(_) => Kind::OutOfMemory,
-            Error::Other(m) => if m.len() == 13 { Kind::Unknown } else { Kind::Other },
+            Error::Other(m) => if m.len() == 14 { Kind::Unknown } else { Kind::Other },   // "injected fault"
             Error::Unsupported(_) => Kind::Unsupported,
             Error::WriteZero(_) => Kind::WriteZero,
         }
